@@ -63,6 +63,35 @@ def check(tier, seed):
                     rep.violation('implementation-vs-oracle', [l], {'profile': 'checked', 'output': a, 'oracle': 'must be false'}, True)
                 elif core.canon(a) != core.canon(m_):
                     rep.violation('correspondence', [l], {'rust_checked': a, 'model_checked': m_[:200]}, False)
+    # --- the longest context and a multi-block message: every bit of both (the framing of M' has its own boundaries: 255-byte context,
+    # SHAKE256 rate 136), honest signatures in a pure and a pre-hash mode
+    for s in fam.SETS:
+        p = R.PARAMS[s]
+        xi = bytes(rng.randrange(256) for _ in range(32))
+        pk, sk = fam.keypair(s, xi)
+        for mode, cl, ml in (('pure', 255, 137), (fam.MODES[1 + fam.SETS.index(s)], 255, 1), ('pure', 254, 0)):
+            msg = bytes(rng.randrange(256) for _ in range(ml))
+            ctx = bytes(rng.randrange(256) for _ in range(cl))
+            sig = R.sign(p, sk, msg, ctx, mode, bytes(32))
+            lines, tags = [f"verify {s} {mode} bytes:{pk.hex()} {hx(msg)} {hx(ctx)} {sig.hex()}"], ['unmodified tuple']
+            for i in range(len(msg) * 8):
+                x = bytearray(msg); x[i // 8] ^= 1 << (i % 8)
+                lines.append(f"verify {s} {mode} bytes:{pk.hex()} {hx(x)} {hx(ctx)} {sig.hex()}"); tags.append('msg bit (long context)')
+            for i in range(len(ctx) * 8):
+                x = bytearray(ctx); x[i // 8] ^= 1 << (i % 8)
+                lines.append(f"verify {s} {mode} bytes:{pk.hex()} {hx(msg)} {hx(x)} {sig.hex()}"); tags.append('ctx bit (long context)')
+            # dropping or appending a byte at the end of the context / message is a change of many bits, but the same framing boundary
+            lines.append(f"verify {s} {mode} bytes:{pk.hex()} {hx(msg)} {hx(ctx[:-1])} {sig.hex()}"); tags.append('ctx truncated by one byte')
+            lines.append(f"verify {s} {mode} bytes:{pk.hex()} {hx(msg + bytes(1))} {hx(ctx)} {sig.hex()}"); tags.append('msg extended by one byte')
+            outs = core.run_stream([core.RUST['fast']], lines)
+            rep.evaluations += len(lines)
+            for l, tg, o in zip(lines, tags, outs):
+                rep.count(tg)
+                want = 'true' if tg == 'unmodified tuple' else 'false'
+                if o != want:
+                    rep.violation('implementation-vs-oracle', [l], {'tag': tg, 'output': o, 'oracle': f'must be {want}'}, True)
+                else:
+                    rep.nontrivial.add((s, mode, tg, len(rep.nontrivial)))
     # --- constructed hint shapes (valid forgeries under the t1 = 0 key): every bit of the hint section and its count bytes.
     # Shapes whose malleability, if any, hides in the padding: a last polynomial holding only index 0 (a repeated index 0 is then
     # indistinguishable from padding), a first polynomial holding only index 0, index 0 everywhere, index 255, no hint at all.
@@ -99,6 +128,24 @@ def check(tier, seed):
                 else:
                     rep.nontrivial.add((s, tag, tg, len(rep.nontrivial)))
         rep.sample(f"[{s}] {len(shapes)} constructed hint shapes x every bit of the hint section, all rejected")
+        # --- under the t1 = 0 key w' = A z does not depend on the challenge, so a flipped commitment-hash bit changes nothing but the
+        # comparison itself: every bit of c~ must matter (a comparison over a prefix, a subset or whole words only is exposed here)
+        msg = bytes(rng.randrange(256) for _ in range(9))
+        z = fam.rand_z(rng, p, 50)
+        pk, sig, _ = fam.forge(s, bytes(32), z, hv({0: [1], k - 1: [2]}), msg, b'', 'pure')
+        lines, tags = [f"verify {s} pure bytes:{pk.hex()} {hx(msg)} - {sig.hex()}"], ['unmodified tuple']
+        for i in range(p['lam'] // 4 * 8):
+            x = bytearray(sig); x[i // 8] ^= 1 << (i % 8)
+            lines.append(f"verify {s} pure bytes:{pk.hex()} {hx(msg)} - {x.hex()}"); tags.append('c-tilde bit (challenge-independent key)')
+        outs = core.run_stream([core.RUST['fast']], lines)
+        rep.evaluations += len(lines)
+        for l, tg, o in zip(lines, tags, outs):
+            rep.count(tg)
+            want = 'true' if tg == 'unmodified tuple' else 'false'
+            if o != want:
+                rep.violation('implementation-vs-oracle', [l], {'tag': tg, 'output': o, 'oracle': f'must be {want}'}, True)
+            else:
+                rep.nontrivial.add((s, tg, len(rep.nontrivial)))
     return core.finish(rep, b, 'proof', {
         'exhaustive': True,
         'rule': 'for each sampled valid tuple, every single-bit position of the signature, public key, message and context (exhaustive per tuple; tuple count is the sample); '
